@@ -159,6 +159,40 @@ def _header_formats(ctx):
     targets = []
     if isinstance(asg, ast.Assign) and isinstance(asg.targets[0], (ast.Tuple, ast.List)):
         targets = asg.targets[0].elts
+    elif isinstance(asg, ast.Assign) and isinstance(asg.targets[0], ast.Name):
+        # the tuple is held in a temporary first: fields = struct.unpack(...); a, b, c = fields
+        tmp = asg.targets[0].id
+        later = [n for n in walk_own(fb.node) if isinstance(n, ast.Assign) and isinstance(n.value, ast.Name) and n.value.id == tmp and isinstance(n.targets[0], (ast.Tuple, ast.List))]
+        if len(later) == 1:
+            targets = later[0].targets[0].elts
+    # where each unpacked value ends up, by value: the header attribute whose stored expression - read through temporaries -
+    # mentions the unpacked name, directly or as the argument of a package factory (PacketHeader.create) that stores its parameter
+    from .common import sym_expr
+    from engine.cfg import cfg_of as _cfg
+    fcfg = _cfg(fb)
+
+    def mentions(e, at, name):
+        e2 = sym_expr(fb, e, fcfg.node_of(at), allow_calls=("PacketType", "SeqNum"))
+        return any(isinstance(x, ast.Name) and x.id == name for x in ast.walk(e2))
+
+    def via_factory(name):
+        for c in walk_own(fb.node):
+            if not (isinstance(c, ast.Call) and isinstance(c.func, ast.Attribute) and isinstance(c.func.value, ast.Name)):
+                continue
+            owner = c.func.value.id
+            if owner in ("cls", "self") and fb.cls is not None:
+                owner = fb.cls.name
+            callee = ctx.repo.funcs.get("%s:%s.%s" % (fb.module.name, owner, c.func.attr))
+            if callee is None:
+                continue
+            params = callee.params[1:] if (callee.cls is not None and not callee.is_static) else callee.params
+            bound = list(zip(params, c.args)) + [(k.arg, k.value) for k in c.keywords if k.arg]
+            for p_, a_ in bound:
+                if mentions(a_, c, name):
+                    for n in walk_own(callee.node):
+                        if isinstance(n, ast.Assign) and isinstance(n.targets[0], ast.Attribute) and any(isinstance(x, ast.Name) and x.id == p_ for x in ast.walk(n.value)):
+                            return n.targets[0].attr
+        return None
     unpack_attrs = []
     for t in targets:
         if isinstance(t, ast.Attribute):
@@ -166,14 +200,53 @@ def _header_formats(ctx):
         elif isinstance(t, ast.Name):
             dest = None
             for n in walk_own(fb.node):
-                if isinstance(n, ast.Assign) and isinstance(n.targets[0], ast.Attribute) and \
-                        any(isinstance(x, ast.Name) and x.id == t.id for x in ast.walk(n.value)):
+                if isinstance(n, ast.Assign) and isinstance(n.targets[0], ast.Attribute) and mentions(n.value, n, t.id):
                     dest = n.targets[0].attr
                     break
+            if dest is None:
+                dest = via_factory(t.id)
             unpack_attrs.append(dest or "?" + t.id)
         else:
             unpack_attrs.append("?")
+    ctx._header_targets = targets
     return tb, fb, packs, pack_attrs, u, unpack_attrs
+
+
+def decoded_header_values(ctx):
+    """{header attribute: (text of the value the decoder stores there, read through temporaries and through a package factory
+    that stores its parameters unchanged; name of the unpacked wire value at that field's position)}"""
+    from .common import sym_expr
+    from engine.cfg import cfg_of as _cfg
+    tb, fb, packs, pack_attrs, u, unpack_attrs = _header_formats(ctx)
+    targets = ctx._header_targets
+    fcfg = _cfg(fb)
+    wire = {a: (t.id if isinstance(t, ast.Name) else norm(t)) for a, t in zip(unpack_attrs, targets)}
+    out = {}
+
+    def val(e, at):
+        return norm(sym_expr(fb, e, fcfg.node_of(at), allow_calls=("PacketType", "SeqNum")))
+    for n in walk_own(fb.node):
+        if isinstance(n, ast.Assign) and isinstance(n.targets[0], ast.Attribute):
+            out[n.targets[0].attr] = val(n.value, n)
+        if isinstance(n, ast.Assign) and isinstance(n.targets[0], (ast.Tuple, ast.List)):
+            for t in n.targets[0].elts:
+                if isinstance(t, ast.Attribute):
+                    out[t.attr] = norm(t)        # unpacked straight into the attribute: the wire value itself
+    for c in walk_own(fb.node):
+        if not (isinstance(c, ast.Call) and isinstance(c.func, ast.Attribute) and isinstance(c.func.value, ast.Name)):
+            continue
+        owner = c.func.value.id
+        if owner in ("cls", "self") and fb.cls is not None:
+            owner = fb.cls.name
+        callee = ctx.repo.funcs.get("%s:%s.%s" % (fb.module.name, owner, c.func.attr))
+        if callee is None:
+            continue
+        params = callee.params[1:] if (callee.cls is not None and not callee.is_static) else callee.params
+        bound = dict(list(zip(params, c.args)) + [(k.arg, k.value) for k in c.keywords if k.arg])
+        for n in walk_own(callee.node):
+            if isinstance(n, ast.Assign) and isinstance(n.targets[0], ast.Attribute) and isinstance(n.value, ast.Name) and n.value.id in bound and n.targets[0].attr not in out:
+                out[n.targets[0].attr] = val(bound[n.value.id], c)
+    return {a: (out.get(a), wire.get(a)) for a in set(out) | set(wire)}
 
 
 def r2(ctx):
